@@ -1,7 +1,7 @@
 CONSTANTS
   MaxTracks = 2
-  MaxEvents = 3
-  MaxAliens = 1
+  MaxEvents = 2
+  MaxAliens = 2
 INIT Init
 NEXT Next
 INVARIANTS DecodesAsIntended IncompleteRejected
